@@ -485,7 +485,6 @@ pub fn explore<S: Scenario>(s: &S, cfg: &ExploreCfg, rep: &Reporter) -> ExploreS
 	let start = Instant::now();
 	let name = s.name();
 
-	crate::mem::leg_starts();
 	std::thread::scope(|sc| {
 		for _ in 0..(if cfg.threads > 0 { cfg.threads } else { rep.jobs.max(1) }) {
 			sc.spawn(|| {
